@@ -26,6 +26,8 @@ class Proc:
         from . import gx
         self.gx = gx
         self.models = {k: gx.load(v, name=k) for k, v in M.items()}
+        # argument objects the client keeps and passes again (the same dict / list objects on every call)
+        self.args = {}
 
     def do(self, c):
         gx = self.gx
@@ -47,9 +49,14 @@ class Proc:
         if c["op"] == "split":
             ode = self.models[c["m"]]
             comp = ode.get_component("B")
-            comp.to_ode()
-            ode - comp
-            return None
+            sub = comp.to_ode()
+            rest = ode - comp
+            a = self.args.setdefault(c["m"], {"to_sub": dict(sub.missing_variables), "to_rest": dict(rest.missing_variables),
+                                              "stiff_sub": ["z"], "stiff_rest": ["x"]})
+            sch = ["explicit_euler", "hybrid_rush_larsen"]
+            code = gx.numpy_code(sub, sch, missing_values=a["to_rest"], stiff_states=a["stiff_sub"]) \
+                + gx.numpy_code(rest, sch, missing_values=a["to_sub"], stiff_states=a["stiff_rest"])
+            return sha(code)
         raise ValueError(c)
 
 
@@ -73,7 +80,7 @@ def replay(hists):
     proc_calls = {}
     for h in hists:
         for c in h["hist"]:
-            if c["op"] == "code":
+            if c["op"] in ("code", "split"):
                 proc_calls[key(c)] = c
     import concurrent.futures as cf
     calls = list(proc_calls.values())
@@ -94,7 +101,7 @@ def replay(hists):
             got = p.do(c)
             if c["op"] == "reload":
                 reloaded.add(c["m"])
-            if c["op"] == "code":
+            if c["op"] in ("code", "split"):
                 n += 1
                 want = (ref_after if c["m"] in reloaded else ref_plain)[key(c)]
                 if got != want:
